@@ -478,6 +478,11 @@ class PyEngine:
             if isinstance(a, SeqV) and isinstance(b, SeqV) and isinstance(n.op, ast.Add):
                 outs.append((s, SeqV(a.len + b.len, lambda i, a=a, b=b: self.ite(i < a.len, a.at(i), b.at(i - a.len)))))
                 continue
+            hook = getattr(self.cur, 'binop', None)
+            hv = hook(self, s, n.op, a, b) if hook else None
+            if hv is not None:
+                outs.append((s, hv))
+                continue
             x, y = self.as_int(a), self.as_int(b)
             r = {ast.Add: lambda: x + y, ast.Sub: lambda: x - y, ast.Mult: lambda: x * y, ast.FloorDiv: lambda: x / y,
                  ast.Mod: lambda: x % y}.get(type(n.op))
